@@ -788,8 +788,18 @@ def check_claim(run, model, spec, kind):
     run.count('claim:' + spec['type'] + ':' + ('signed' if spec.get('signed') else 'unsigned'))
     run.count('claim-via:' + spec['via'])
     claim = build_claim(spec)
+    return verify_claim(run, model, case, spec, claim, {'op': 'claim', 'spec': spec})
+
+
+def verify_claim(run, model, case, spec, claim, signature):
+    """claim: the live object after the assignments described by spec.  to_bytes -> from_bytes, monitor, model."""
     raw = claim.to_bytes()
-    back = Claim.from_bytes(raw)
+    try:
+        back = Claim.from_bytes(raw)
+    except Exception as ex:                      # noqa
+        run.violation(case, f'to_bytes() gives {len(raw)} bytes that from_bytes() refuses: {type(ex).__name__}: {ex} '
+                            f'(bytes {raw.hex()[:400]})', signature=signature)
+        return None
     payload = back.to_message_bytes()
     run.count('claim-bytes:' + str(min(len(raw).bit_length(), 16)))
     bad = []
@@ -829,8 +839,8 @@ def check_claim(run, model, spec, kind):
             report_once(run, case, f'Source.bt_infohash_bytes returns {desc} instead of the bytes that were set',
                         {'accessor': 'Source.bt_infohash_bytes'})
     if bad:
-        run.violation(case, '; '.join(bad)[:1500], signature={'op': 'claim', 'spec': spec})
-        return
+        run.violation(case, '; '.join(bad)[:1500], signature=signature)
+        return None
     # -- correspondence ---------------------------------------------------------------------------
     impl = {'env': env_view(back, payload), 'tree': {'ok': msg_tree(back.message)}}
     mod = model.call('decode_all', d=raw.hex(), schema=SCHEMA.table, depth=DEPTH, m=M_CLAIM)
@@ -842,6 +852,154 @@ def check_claim(run, model, spec, kind):
     run.compare('C16.tree_ok', case, True, ok['ok'] and ok['depth'] <= DEPTH)
     fmt = model.call('claim_format', d=raw[:1].hex())
     run.compare('C16.claim_format', case, 'v2', fmt)
+    return back
+
+
+def check_bare(run, model, which, sg, kind):
+    """an object with NO field set at all (Claim() without a type, Support() without text), signed or not:
+    what the API builds must serialise and parse back to an equal object -- the signed ones are exactly 85 bytes"""
+    case = {'op': 'bare', 'which': which, 'signed': sg, 'kind': kind}
+    run.case(case, nontrivial=sg is not None)
+    run.count('bare:' + which + ':' + ('signed' if sg else 'unsigned'))
+    cls, m = {'claim': (Claim, M_CLAIM), 'support': (Support, M_SUPPORT)}[which]
+    obj = cls()
+    if sg:
+        obj.signature = bytes.fromhex(sg['sig'])
+        obj.signing_channel_hash = bytes.fromhex(sg['hash'])
+    raw = obj.to_bytes()
+    sig = {'op': 'bare', 'which': which, 'data': raw.hex()}
+    if len(raw) != (85 if sg else 1):
+        run.violation(case, f'an empty {which} serialises to {len(raw)} bytes', signature=sig)
+        return
+    try:
+        back = cls.from_bytes(raw)
+    except Exception as ex:                      # noqa
+        run.violation(case, f'the {len(raw)}-byte encoding {raw.hex()} of an empty {"signed " if sg else ""}{which} is refused by '
+                            f'from_bytes: {type(ex).__name__}: {ex}', signature=sig)
+        return
+    bad = []
+    if back.message != obj.message or back.to_bytes() != raw:
+        bad.append('does not round-trip')
+    if back.is_signed != bool(sg) or (sg and (back.signature.hex() != sg['sig'] or back.signing_channel_hash.hex() != sg['hash'])):
+        bad.append('signature envelope not read back')
+    if bad:
+        run.violation(case, '; '.join(bad), signature=sig)
+        return
+    impl = {'env': env_view(back, b''), 'tree': {'ok': []}}
+    run.compare('C16.decode_all', case, impl, model.call('decode_all', d=raw.hex(), schema=SCHEMA.table, depth=DEPTH, m=m))
+    run.compare('C16.encode_all', case, raw.hex(),
+                model.call('encode_all', tree=[], hash=sg['hash'] if sg else None, sig=sg['sig'] if sg else None))
+
+
+# ------------------------------------------------------------------------------------------------
+# several updates on ONE stream claim (the stream_update flow): the spec is updated alongside by the rules
+# of the API as documented (a given currency wins over the stored one, an amount alone keeps the currency,
+# an address alone keeps both, clear_fee removes the fee), and everything is verified after every step
+# ------------------------------------------------------------------------------------------------
+def gen_step(rng, spec):
+    kinds = ['fee-new', 'fee-new', 'fee-new', 'title', 'tags', 'release', 'author']
+    if 'fee' in spec:
+        kinds += ['fee-other-currency', 'fee-other-currency', 'fee-other-currency', 'fee-amount', 'fee-address', 'fee-clear']
+    k = rng.choice(kinds)
+    st = {'kind': k, 'reparse': rng.random() < 0.6}
+    if k in ('fee-new', 'fee-other-currency'):
+        cur = rng.choice(CURRENCIES)
+        if k == 'fee-other-currency':
+            cur = rng.choice([c for c in CURRENCIES if c != spec['fee']['currency']])
+        st['currency'] = cur if rng.random() < 0.7 else cur.upper()
+        st['amount'] = gen_amount(rng, cur)
+        if rng.random() < 0.4 or 'fee' not in spec:
+            st['address'], st['address_raw'] = gen_address(rng)
+    elif k == 'fee-amount':
+        st['amount'] = gen_amount(rng, spec['fee']['currency'])
+    elif k == 'fee-address':
+        st['address'], st['address_raw'] = gen_address(rng)
+    elif k == 'title':
+        st['title'] = gen_text(rng, 30)
+    elif k == 'author':
+        st['author'] = gen_text(rng, 30)
+    elif k == 'tags':
+        st['tags'] = gen_tags(rng) or ['x']
+    elif k == 'release':
+        st['release_time'] = rng.choice(I64_EDGES[1:])
+    return st
+
+
+def apply_step(claim, spec, st):
+    """the API call for one step; returns the spec as it must read afterwards"""
+    spec = json.loads(json.dumps(spec))
+    k = st['kind']
+    kw = {}
+    if k in ('fee-new', 'fee-other-currency'):
+        kw = {'fee_currency': st['currency'], 'fee_amount': st['amount']}
+        fee = dict(spec.get('fee') or {})
+        fee['currency'], fee['amount'] = st['currency'].lower(), st['amount']
+        if 'address' in st:
+            kw['fee_address'] = st['address']
+            fee['address'], fee['address_raw'] = st['address'], st['address_raw']
+        spec['fee'] = fee
+    elif k == 'fee-amount':
+        kw = {'fee_amount': st['amount']}
+        spec['fee']['amount'] = st['amount']
+    elif k == 'fee-address':
+        kw = {'fee_address': st['address']}
+        spec['fee']['address'], spec['fee']['address_raw'] = st['address'], st['address_raw']
+    elif k == 'fee-clear':
+        kw = {'clear_fee': True}
+        spec.pop('fee', None)
+    elif k == 'title':
+        kw = {'title': st['title']}
+        spec['title'] = st['title']
+    elif k == 'author':
+        kw = {'author': st['author']}
+        spec['author'] = st['author']
+    elif k == 'tags':
+        kw = {'tags': list(st['tags'])}
+        spec['tags'] = spec['tags'] + st['tags']
+    elif k == 'release':
+        kw = {'release_time': st['release_time']}
+        spec['release_time'] = st['release_time']
+    claim.stream.update(**kw)
+    return spec
+
+
+def gen_sequence(rng):
+    spec = gen_claim_spec(rng)
+    while spec['type'] != 'stream':
+        spec = gen_claim_spec(rng)
+    spec['source'].pop('name', None)          # a later update() would re-guess the media type from the file name
+    steps = []
+    cur = spec
+    for _ in range(rng.choice([1, 2, 2, 3, 4])):
+        st = gen_step(rng, cur)
+        steps.append(st)
+        # track only what later steps depend on: is there a fee, and in which currency
+        if st['kind'] in ('fee-new', 'fee-other-currency'):
+            cur = dict(cur, fee={'currency': st['currency'].lower()})
+        elif st['kind'] == 'fee-clear':
+            cur = {k: v for k, v in cur.items() if k != 'fee'}
+    return {'spec': spec, 'steps': steps}
+
+
+def check_sequence(run, model, seq, kind):
+    case = {'op': 'sequence', 'seq': seq, 'kind': kind}
+    run.case(case, nontrivial=True)
+    spec = seq['spec']
+    sig = {'op': 'sequence', 'seq': seq}
+    try:
+        live = build_claim(spec)
+        back = verify_claim(run, model, dict(case, step=0), spec, live, sig)
+        for i, st in enumerate(seq['steps'], 1):
+            if back is None:
+                return
+            run.count('sequence-step:' + st['kind'] + (':on-parsed-copy' if st['reparse'] else ':on-same-object'))
+            target = back if st['reparse'] else live          # stream_update works on Claim.from_bytes(old)
+            spec = apply_step(target, spec, st)
+            back = verify_claim(run, model, dict(case, step=i), spec, target, sig)
+            live = target
+    except Exception as ex:                      # noqa
+        import traceback
+        run.violation(case, f'{type(ex).__name__}: {ex} during an update sequence: ' + traceback.format_exc()[-500:], signature=sig)
 
 
 def gen_support_spec(rng):
@@ -864,7 +1022,12 @@ def check_support(run, model, spec, kind):
         sup.signature = bytes.fromhex(spec['signed']['sig'])
         sup.signing_channel_hash = bytes.fromhex(spec['signed']['hash'])
     raw = sup.to_bytes()
-    back = Support.from_bytes(raw)
+    try:
+        back = Support.from_bytes(raw)
+    except Exception as ex:                      # noqa
+        run.violation(case, f'to_bytes() gives {len(raw)} bytes that from_bytes() refuses: {type(ex).__name__}: {ex} '
+                            f'(bytes {raw.hex()[:400]})', signature={'op': 'support', 'spec': spec})
+        return
     bad = []
     if back.message != sup.message or back.to_bytes() != raw:
         bad.append('support does not round-trip')
@@ -1274,7 +1437,41 @@ _md = legacy_claim_pb2.Claim.DESCRIPTOR.fields_by_name['stream'].message_type.fi
 V1_LANGS = {v.name: v.number for v in _md.fields_by_name['language'].enum_type.values if v.number != 0}
 
 
-def check_legacy(run, model, data, expect, kind):
+def rd_pb_varint(b, i):
+    v, sh = 0, 0
+    while True:
+        c = b[i]
+        i += 1
+        v |= (c & 0x7F) << sh
+        sh += 7
+        if not c & 0x80:
+            return v, i
+
+
+def strip_top_field(data, fno):
+    """the same message bytes with every top-level occurrence of field fno cut out (hand-written walk)"""
+    out, i = b'', 0
+    while i < len(data):
+        start = i
+        tag, i = rd_pb_varint(data, i)
+        wt = tag & 7
+        if wt == 0:
+            _, i = rd_pb_varint(data, i)
+        elif wt == 1:
+            i += 8
+        elif wt == 2:
+            n, i = rd_pb_varint(data, i)
+            i += n
+        elif wt == 5:
+            i += 4
+        else:
+            raise ValueError('group')
+        if tag >> 3 != fno:
+            out += data[start:i]
+    return out
+
+
+def check_legacy(run, model, data, expect, kind, channel_tx=None, stream_tx=None):
     """data: bytes of a claim in one of the two legacy encodings; expect: the values it must decode to"""
     case = {'op': 'legacy', 'data': data.hex(), 'expect': expect, 'kind': kind}
     run.case(case, nontrivial=True)
@@ -1295,6 +1492,39 @@ def check_legacy(run, model, data, expect, kind):
         return
     run.compare('C16.claim_format', case, {0: 'json', 1: 'v1', 2: 'v2'}[claim.version], fmt)
     if claim.version == 1:
+        # what a legacy signature is checked over: the v1 message without its publisherSignature (field 5), and the
+        # signature / signing channel a plain protobuf parse of the same bytes shows
+        plain = legacy_claim_pb2.Claim()
+        plain.ParseFromString(data)
+        sigbad = []
+        if plain.HasField('publisherSignature'):
+            run.count('legacy:v1-signed')
+            want_payload = strip_top_field(data, 5)
+            if claim.unsigned_payload != want_payload:
+                up = claim.unsigned_payload
+                sigbad.append(f'unsigned_payload is {len(up) if up is not None else None} bytes, not the {len(want_payload)} bytes of the '
+                              'v1 message without its publisherSignature')
+            if claim.signature != plain.publisherSignature.signature:
+                sigbad.append('signature differs from the plain protobuf parse')
+            if claim.signing_channel_hash != plain.publisherSignature.certificateId[::-1]:
+                sigbad.append('signing channel differs from the plain protobuf parse')
+        elif claim.is_signed or claim.unsigned_payload is not None:
+            sigbad.append('an unsigned v1 claim decodes as signed')
+        if not sigbad and channel_tx is not None:
+            # a real on-chain signature must still validate over that payload
+            from lbry.wallet import Ledger, Database, Headers, Transaction
+            ledger = Ledger({'db': Database(':memory:'), 'headers': Headers(':memory:')})
+            s_txo = Transaction(bytes.fromhex(stream_tx)).outputs[0]
+            c_txo = Transaction(bytes.fromhex(channel_tx)).outputs[0]
+            run.count('legacy:on-chain-signature')
+            if not s_txo.is_signed_by(c_txo, ledger):
+                sigbad.append('the on-chain legacy signature no longer validates')
+        if sigbad:
+            run.violation(case, 'signed legacy claim: ' + '; '.join(sigbad), signature={'op': 'legacy', 'data': data.hex()})
+            return
+        if plain.HasField('publisherSignature'):
+            run.compare('C16.v1_unsigned_payload', case, {'ok': claim.unsigned_payload.hex()},
+                        model.call('v1_unsigned_payload', d=data.hex()))
         # the v1 encoding is protobuf too (proto2, with a 32-bit float): the wire model reads it as well
         old = legacy_claim_pb2.Claim()
         old.ParseFromString(data)
@@ -1586,8 +1816,13 @@ def main(run):
                 'update() or through the accessors: unicode text incl. astral, NUL and length edges 127/128/16383/16384 bytes, '
                 'uint64/uint32/int64 edges, fees in LBC/BTC/USD incl. the uint64 edge and finer-than-unit amounts, 0..N tags / '
                 'languages (language[-script][-region], alpha-2 and UN M.49 regions) / locations (dict, JSON and colon forms, '
-                '+-90/+-180) / claim references, with and without a signature envelope (hash set directly or by id); supports and '
-                'purchases; legacy JSON and v1 protobuf claims built from random values plus the upstream fixtures; damaged bytes '
+                '+-90/+-180) / claim references, with and without a signature envelope (hash set directly or by id); sequences of 1..4 '
+                'further update() calls on one stream claim (fee re-priced in another currency, amount only, address only, clear_fee, title, '
+                'tags, release time), applied to the same object or to the parsed copy and verified after every step; objects with no '
+                'field at all, signed (exactly 85 bytes) and unsigned; supports and '
+                'purchases; legacy JSON and v1 protobuf claims built from random values (half of the v1 ones with a publisherSignature: '
+                'unsigned_payload against the message minus field 5) plus the upstream fixtures and three on-chain ytsync claims whose '
+                'signature must validate; damaged bytes '
                 '(bit flips, truncation, insertions, every first byte) against envelope, dispatch and the wire parser; varint / '
                 'int64 / zigzag values at every 7-bit boundary; URLs drawn from the grammar (names over ASCII, punctuation, BMP and '
                 'astral code points, hex-looking names; claim ids of length 1..40, amount orders; both separators; with and without '
@@ -1598,6 +1833,29 @@ def main(run):
         run_claim_spec(run, model, e['spec'], 'corpus')
     for e in load_corpus('legacy.json'):
         check_legacy(run, model, bytes.fromhex(e['data']), e['expect'], 'corpus')
+    for e in load_corpus('legacy_signed.json'):
+        from lbry.wallet import Transaction
+        raw = Transaction(bytes.fromhex(e['txs']['stream_tx'])).outputs[0].script.values['claim']
+        if raw[0] in (0, 1):
+            # an on-chain claim in the current encoding: bytes -> object -> the same bytes, and the model reads the same
+            case = {'op': 'onchain-v2', 'data': raw.hex(), 'kind': 'corpus-on-chain'}
+            run.case(case, nontrivial=True)
+            run.count('onchain-v2')
+            c = Claim.from_bytes(raw)
+            if c.to_bytes() != raw or c.version != 2:
+                run.violation(case, 'an on-chain claim does not re-serialise to its own bytes', signature={'op': 'onchain-v2', 'data': raw.hex()})
+            else:
+                run.compare('C16.decode_all', case, {'env': env_view(c, c.to_message_bytes()), 'tree': {'ok': msg_tree(c.message)}},
+                            model.call('decode_all', d=raw.hex(), schema=SCHEMA.table, depth=DEPTH, m=M_CLAIM))
+            continue
+        check_legacy(run, model, raw, {'version': 1, 'claim_type': 'stream', 'signed': True}, 'corpus-on-chain',
+                     channel_tx=e['txs']['channel_tx'], stream_tx=e['txs']['stream_tx'])
+    for e in load_corpus('sequences.json'):
+        check_sequence(run, model, e['seq'], 'corpus')
+    for which in ('support', 'claim'):
+        check_bare(run, model, which, None, 'boundary')
+        check_bare(run, model, which, {'hash': bytes(range(1, 21)).hex(), 'sig': bytes(range(100, 164)).hex()}, 'boundary')
+        check_bare(run, model, which, {'hash': '00' * 20, 'sig': '00' * 64}, 'boundary')
     urls = load_corpus('urls.json') or {'valid': URL_VALID_FIXED, 'invalid': URL_INVALID_FIXED}
     for s in urls['valid']:
         check_url(run, model, s, 'corpus-valid')
@@ -1617,8 +1875,12 @@ def main(run):
                 raws.append(build_claim(spec).to_bytes())
             except Exception:           # noqa
                 pass
+    for _ in range(q(500, 12000)):
+        check_sequence(run, model, gen_sequence(rng), 'generated')
     for _ in range(q(300, 6000)):
         check_support(run, model, gen_support_spec(rng), 'generated')
+        if rng.random() < 0.1:
+            check_bare(run, model, rng.choice(['support', 'claim']), {'hash': gen_hex(rng, 20), 'sig': gen_hex(rng, 64)}, 'generated')
     check_purchase(run, model, None, 'boundary')
     for _ in range(q(200, 4000)):
         check_purchase(run, model, gen_claim_id(rng), 'generated')
@@ -1693,6 +1955,10 @@ def replay(run, case):
     op = case.get('op')
     if op == 'claim':
         run_claim_spec(run, model, case['spec'], 'replay')
+    elif op == 'sequence':
+        check_sequence(run, model, case['seq'], 'replay')
+    elif op == 'bare':
+        check_bare(run, model, case['which'], case['signed'], 'replay')
     elif op == 'support':
         check_support(run, model, case['spec'], 'replay')
     elif op == 'purchase':
